@@ -264,6 +264,28 @@ func outgroupCase(c *core.Ctx, i int) {
 			inner[0].Name, inner[len(inner)-1].Name = "same", "same"
 		}
 	}
+	// an inner node labelled like a tip that comes after it in the node order (below it, or in a later
+	// subtree): the node index must refuse the tree; an index that kept the first node met would take the inner
+	// node for the tip
+	var shadow *core.N
+	shadowTip := ""
+	if c.G.Chance(0.05) {
+		var cands [][]int
+		for _, p := range paths {
+			if x := n.At(p); len(p) > 0 && len(x.Kids) > 0 {
+				cands = append(cands, p)
+			}
+		}
+		if len(cands) > 0 {
+			x := n.At(cands[c.G.Intn(len(cands))])
+			lv := x.Leaves()
+			shadow, shadowTip = x, lv[c.G.Intn(len(lv))]
+			x.Name = shadowTip
+			if x.E != nil {
+				x.E.Sup = -1 // a named inner node carries no support in Newick
+			}
+		}
+	}
 	remove, strict := c.G.Chance(0.3), c.G.Chance(0.5)
 	forced := kind == "nonclade" && c.G.Chance(0.4)
 	if forced {
@@ -337,8 +359,66 @@ func outgroupCase(c *core.Ctx, i int) {
 			S = append(S, S[0]) // a repeated name
 		}
 	}
+	if shadow != nil {
+		// the outgroup names the shadowed tip: the clade of the labelled node, or the tip and one tip elsewhere
+		if c.G.Chance(0.5) {
+			S = shadow.Leaves()
+		} else {
+			S = []string{shadowTip}
+			in := map[string]bool{}
+			for _, l := range shadow.Leaves() {
+				in[l] = true
+			}
+			for _, l := range all {
+				if !in[l] {
+					S = append(S, l)
+					break
+				}
+			}
+		}
+	} else if rootedOn := kind != "absent" && c.G.Chance(0.15); rootedOn && len(n.Kids) >= 2 {
+		// the tree is ALREADY rooted on the branch of the outgroup, the root lying off the middle of it: the
+		// outgroup is one of the two root clades, the two root branches have different lengths
+		n, S = rootedOnOutgroup(c, n, kind == "complement")
+		if c.G.Chance(0.8) {
+			remove = false
+		}
+	}
 	c.G.R.Shuffle(len(S), func(a, b int) { S[a], S[b] = S[b], S[a] })
 	doOutgroup(c, n, remove, strict, S, kind)
+}
+
+// rootedOnOutgroup hangs the tree on a bifurcating root: the first child of the old top node on one side, the
+// rest on the other, the two root branches of different lengths; the outgroup is one of the two root clades.
+func rootedOnOutgroup(c *core.Ctx, n *core.N, second bool) (*core.N, []string) {
+	o := opts(c.G)
+	o.Lengths = 1
+	var a, b *core.N
+	if len(n.Kids) == 2 {
+		a, b = n.Kids[0], n.Kids[1]
+	} else {
+		a = n.Kids[0]
+		b = &core.N{Name: n.Name, Comments: n.Comments, Kids: n.Kids[1:], E: core.NewE()}
+		if c.G.Chance(0.5) {
+			b.PPos = len(b.Kids)
+		}
+	}
+	la := c.G.Length(&o)
+	a.E.Len, b.E.Len = la, la+1+float64(c.G.Intn(4))
+	if c.G.Chance(0.5) {
+		a.E.Len, b.E.Len = b.E.Len, a.E.Len
+	}
+	if c.G.Chance(0.1) {
+		a.E.Len = 0
+	}
+	r := &core.N{Kids: []*core.N{a, b}}
+	if c.G.Chance(0.5) {
+		r.Kids = []*core.N{b, a}
+	}
+	if second {
+		return r, b.Leaves()
+	}
+	return r, a.Leaves()
 }
 
 func partOfClade(c *core.Ctx, n *core.N, always bool) []string {
@@ -406,6 +486,8 @@ func midpointCase(c *core.Ctx) {
 	}
 	n, _ := c.G.Tree(o)
 	switch r := c.G.Intn(100); {
+	case r >= 88:
+		midpointOnNode(c, n)
 	case r < 4:
 		zeroAll(n)
 	case r < 12:
@@ -417,6 +499,89 @@ func midpointCase(c *core.Ctx) {
 		}
 	}
 	doMidpoint(c, n)
+}
+
+// midpointOnNode arranges the lengths so that the longest path is UNIQUE and its middle falls exactly on an
+// inner node x (the cut is 0: one of the two new root branches has length 0), the branches around x carrying
+// supports: all lengths present, two tips a (below x) and b (elsewhere) pushed 100 away, the difference of
+// their distances to x added to the nearer one.
+func midpointOnNode(c *core.Ctx, n *core.N) {
+	var fix func(x *core.N)
+	fix = func(x *core.N) {
+		for _, k := range x.Kids {
+			if k.E.Len < 0 {
+				k.E.Len = 1
+			}
+			fix(k)
+		}
+	}
+	fix(n)
+	var inner, tips [][]int
+	for _, p := range n.Paths() {
+		x := n.At(p)
+		if len(p) > 0 && len(x.Kids) >= 2 {
+			inner = append(inner, p)
+		} else if len(x.Kids) == 0 {
+			tips = append(tips, p)
+		}
+	}
+	if len(inner) == 0 {
+		return
+	}
+	px := inner[c.G.Intn(len(inner))]
+	isPrefix := func(p, q []int) bool {
+		if len(p) > len(q) {
+			return false
+		}
+		for i := range p {
+			if p[i] != q[i] {
+				return false
+			}
+		}
+		return true
+	}
+	var below, outside [][]int
+	for _, p := range tips {
+		if isPrefix(px, p) {
+			below = append(below, p)
+		} else {
+			outside = append(outside, p)
+		}
+	}
+	if len(below) == 0 || len(outside) == 0 {
+		return
+	}
+	pa, pb := below[c.G.Intn(len(below))], outside[c.G.Intn(len(outside))]
+	sum := func(p []int, from int) float64 {
+		v := 0.0
+		for i := from; i < len(p); i++ {
+			v += n.At(p[:i+1]).E.Len
+		}
+		return v
+	}
+	k := 0
+	for k < len(px) && k < len(pb) && px[k] == pb[k] {
+		k++
+	}
+	da := sum(pa, len(px))
+	db := sum(px, k) + sum(pb, k)
+	a, b := n.At(pa), n.At(pb)
+	a.E.Len += 100
+	b.E.Len += 100
+	if da < db {
+		a.E.Len += db - da
+	} else {
+		b.E.Len += da - db
+	}
+	x := n.At(px)
+	if x.Name == "" {
+		x.E.Sup = 0.5
+	}
+	for _, kk := range x.Kids {
+		if len(kk.Kids) > 0 && kk.Name == "" {
+			kk.E.Sup = 0.75
+		}
+	}
 }
 
 // ---- the operations on the real code -------------------------------------------------
